@@ -264,6 +264,19 @@ class Request:
         else:
             mask = 1
         chosen = [i for j, i in enumerate(ready) if (mask >> j) & 1]
+        if len(chosen) > 1:
+            # MPI does not specify the order of array_of_indices: it is a
+            # choice too (all permutations up to three completions, beyond
+            # that ascending / descending / the rotations)
+            import itertools
+            if len(chosen) <= 3:
+                orders = list(itertools.permutations(chosen))
+            else:
+                orders = [tuple(chosen), tuple(reversed(chosen))] + [
+                    tuple(chosen[j:] + chosen[:j])
+                    for j in range(1, len(chosen))]
+            k = w._choose(len(orders), "order", {"rank": r})
+            chosen = list(orders[k])
         w.events.append(("waitsome", r, tuple((reqs[i].kind, reqs[i].peer,
                                                reqs[i].tag) for i in chosen),
                          len(ready)))
